@@ -232,9 +232,16 @@ func dumpStale(e *storage.Engine, table string) (*model.Table, error) {
 var keys = []string{"a", "b", "c", "d", "e", "f"}
 
 // writer issues non-idempotent leader writes until stop.
+// holdWriters makes the background writers wait (between two of their writes) while it is set: the
+// log scenario needs three of its own writes next to each other in the leader's log.
+var holdWriters atomic.Bool
+
 func writer(e *storage.Engine, table string, seed int64, lg *leaderLog, stop *atomic.Bool, max int, nonIdem *atomic.Int64, paceMs int) {
 	g := rand.New(rand.NewSource(seed))
 	for i := 0; i < max && !stop.Load() && !lg.failed.Load(); i++ {
+		for holdWriters.Load() && !stop.Load() {
+			time.Sleep(time.Millisecond)
+		}
 		k := []byte(keys[g.Intn(len(keys))])
 		tag := []byte(fmt.Sprintf("w%d-%d", seed%1000, i))
 		ctx, cancel := context.WithTimeout(context.Background(), 10*time.Second)
@@ -320,7 +327,7 @@ func runScenario(r *ev.Run, id caseID) {
 	if id.Scenario == "log" {
 		// the log scenario is about message boundaries: several small entries per message (one
 		// entry alone counts ~150 B), the 2.6-4 KiB values never fit behind another entry
-		maxMsg = []uint64{700, 1024, 2048}[g.Intn(3)]
+		maxMsg = []uint64{1024, 1536, 2048}[g.Intn(3)] // (at 700 B a membership-change entry hardly ever fits behind a data entry)
 	}
 	inMem := []uint64{0, 1 << 20, 6 << 20, 1 << 20}[g.Intn(4)] // must exceed the worker's 256 KiB proposals
 	if (id.Scenario == "snapshot" || id.Scenario == "writes-during-recovery") && g.Intn(2) == 0 {
@@ -339,7 +346,7 @@ func runScenario(r *ev.Run, id caseID) {
 	}
 	if id.Scenario == "snapshot" || id.Scenario == "writes-during-recovery" || id.Scenario == "recovery-interrupted" {
 		snapEntries, overhead = 20, 5
-	} else if g.Intn(3) == 0 && id.Scenario != "second-consumer" { // (a compaction empties the log cache)
+	} else if g.Intn(3) == 0 && id.Scenario != "second-consumer" && id.Scenario != "log" { // (a compaction empties the log cache; with leader snapshots on, membership-change entries were never seen in the stream)
 		snapEntries, overhead = 150, 100 // compaction happens, but well behind a tailing follower
 	}
 	w := witness{Case: id, Config: fmt.Sprintf("leader max message %d B, log cache %d, SnapshotEntries %d / CompactionOverhead %d; follower MaxInMemLogSize %d", maxMsg, logCache, snapEntries, overhead, inMem)}
@@ -565,6 +572,10 @@ func runScenario(r *ev.Run, id caseID) {
 							if paused {
 								f.StopManager(0)
 							}
+							// the writers stand still for the burst: data entry, Raft-internal entry and the
+							// large value are neighbours in the leader's log
+							holdWriters.Store(true)
+							time.Sleep(15 * time.Millisecond)
 							put(fmt.Sprintf("zz-before-membership-change-%d-%s", i, strings.Repeat("k", g.Intn(40))), []byte("x"))
 							if le.SyncRequestAddNonVoting(ctx, at.ClusterID, uint64(90+i), fmt.Sprintf("127.0.0.1:%d", 1+i), m.ConfigChangeID) == nil {
 								r.Count("raft_internal_entries_injected_mid_log", 1)
@@ -574,6 +585,7 @@ func runScenario(r *ev.Run, id caseID) {
 								put("f", val)
 								put(fmt.Sprintf("zz-after-membership-change-%d", i), []byte("y"))
 							}
+							holdWriters.Store(false)
 							if paused {
 								if err := f.StartManager(0); err != nil {
 									lg.failed.Store(true)
@@ -972,6 +984,9 @@ func runScenario(r *ev.Run, id caseID) {
 	r.Count("replicate_calls", st.ReplicateCalls.Load())
 	r.Count("replicated_commands", st.Commands.Load())
 	r.Count("use_snapshot_answers", st.UseSnapshot.Load())
+	r.Count("messages_carrying_a_raft_internal_entry", st.DummyAny.Load())
+	r.Count("messages_carrying_only_a_raft_internal_entry", st.DummyAlone.Load())
+	r.Count("messages_starting_with_a_raft_internal_entry", st.DummyFirst.Load())
 	r.Count("messages_ending_with_raft_internal_entry_behind_data", st.DummyTail.Load())
 	r.Count("messages_ending_with_raft_internal_entry_behind_data_followed_by_more_in_stream", st.DummyTailThenMore.Load())
 	r.Count("snapshot_recoveries_observed", st.SnapshotStreams.Load())
